@@ -254,13 +254,13 @@ def run_case(ctx):
             if np.linalg.norm(ref) < 1e-9 * scale:
                 ctx.cls("apply:annihilated")
                 continue
-            # canonicalise() asserts that the centre sits at the start of the sweep: contract / apply(canonicalise=True)
-            # are only requested for operands in that state (any centre is used with the plain product)
+            # (canonicalise() moves the centre to the start of its sweep itself since the repair 81e9b69: contract and
+            # apply(canonicalise=True) are requested for operands with the centre anywhere)
             at_boundary = (a.mp.to_right and a.mp.qnidx == 0) or ((not a.mp.to_right) and a.mp.qnidx == a.mp.site_num - 1)
-            if kind == "contract" and not at_boundary:
-                kind = "apply"
+            if not at_boundary and kind in ("contract", "apply"):
+                ctx.cls(kind + ":centre-inside-the-chain")
             if kind == "apply":
-                res = ctx.lib(o.mp.apply, a.mp, canonicalise=bool(at_boundary and rng.random() < 0.4), what="Mpo.apply")
+                res = ctx.lib(o.mp.apply, a.mp, canonicalise=bool(rng.random() < 0.4), what="Mpo.apply")
             elif kind == "matmul":
                 res = ctx.lib(lambda: o.mp @ a.mp, what="Mpo.__matmul__")
             else:
